@@ -23,7 +23,10 @@ def handle (op : String) (j : Json) : Option (R Json) :=
   | "c05.normalize" => some do
       let a ← cfArrOfJson j
       let p ← getFloat j "power"
-      pure (okJ [("a", cfArrToJson (normalizePower a p))])
+      -- a call that omits `power`: the model takes the default regenerated from the signature
+      match optVal j "default" with
+      | some (Json.bool true) => pure (okJ [("a", cfArrToJson (normalizePowerDefault (R := Float) a))])
+      | _ => pure (okJ [("a", cfArrToJson (normalizePower a p))])
   | "c05.insert_weighted" => some do
       -- `Wavefront.insert(acc, weight)` of a propagated wavefront: the C02 model's output fields accumulated into a constant
       -- array by the C07 loop model `viewRun Gen.insertWiring` with default weight 1 (loop wiring regenerated, accumulation statement of `field.insert` regenerated)
